@@ -28,7 +28,8 @@ BUDGET = {'quick': 250, 'thorough': 6000}
 @st.composite
 def strategy_(draw, tier):
     d = D(draw)
-    ref = refgen.gen_reference(d, n_genes=(1, 3), max_tx=3, n_exons=(1, 4))
+    ref = refgen.gen_reference(d, n_genes=(1, 3), max_tx=3, n_exons=(1, 4),
+        utr_styles=('gencode', 'gencode', 'ensembl', 'none'))
     tx_ids = [t['id'] for g in ref['genes'] for t in g['txs']]
     gene_ids = [g['id'] for g in ref['genes']]
     access = []
